@@ -51,11 +51,13 @@ class C14Machine(RuleBasedStateMachine):
 
     def __init__(self):
         super().__init__()
-        self.ex = wasifs.FsExecutor(npreopen=1)
-        self.dirfds = [self.ex.preopens[0]]
+        self.ex = None
+        self.dirfds = []
 
-    @initialize(mode=st.sampled_from([0, 0, 1, 2, 3, 5, 7]))
-    def edge(self, mode):
+    @initialize(mode=st.sampled_from([0, 0, 1, 2, 3, 5, 7]), variant=st.just('default'))
+    def start(self, mode, variant):
+        self.ex = wasifs.FsExecutor(npreopen=1, variant=variant)
+        self.dirfds = [self.ex.preopens[0]]
         self.ex.set_edge(mode)
 
     def pick_dir(self, i):
@@ -113,6 +115,8 @@ class C14Machine(RuleBasedStateMachine):
             self.ex.path_op('create_directory', dfd, 'p%02d_%s' % (i, 'z' * (i * 7 % 40)))
 
     def teardown(self):
+        if self.ex is None:
+            return
         try:
             self.ex.final_check()
         finally:
